@@ -50,6 +50,7 @@ type mModule struct {
 	helpers []mFunc
 	entries []mEntry
 	io      []mIOField // fields of the shared vertex-output / fragment-input struct VO
+	posInv  bool       // @invariant on the position member of VO
 	prelude string     // module constants the attribute arguments refer to
 	ctxSeed uint64     // decides the statement context each use / call is placed in (plain, if, switch case, loop body, continuing, ...)
 	wrapN   int
@@ -154,6 +155,7 @@ func subset(c *ctx, n int, p float64) []int {
 
 func genMulti(c *ctx) *mModule {
 	m := &mModule{ctxSeed: c.rng.Uint64()}
+	m.posInv = c.chance(0.3)
 	c.attrConsts = map[int]bool{}
 	defer func() { m.prelude = c.attrPrelude(); c.attrConsts = nil }()
 	usedBind := map[[2]int]bool{}
@@ -284,7 +286,11 @@ func (m *mModule) wgsl() string {
 	var b strings.Builder
 	m.wrapN = 0
 	b.WriteString("struct UB { a: vec4<u32>, }\n")
-	b.WriteString("struct VO {\n  @builtin(position) p: vec4<f32>,\n")
+	if m.posInv {
+		b.WriteString("struct VO {\n  @builtin(position) @invariant p: vec4<f32>,\n")
+	} else {
+		b.WriteString("struct VO {\n  @builtin(position) p: vec4<f32>,\n")
+	}
 	for i, f := range m.io {
 		fmt.Fprintf(&b, "  %s f%d: %s,\n", f.attrs, i, f.ty)
 	}
